@@ -51,7 +51,7 @@ CONSTANTS TC,          \* record: class name -> _ufl_typecode_ of the real class
                        \* compared); "after" / "before": the two one-line repairs (compare the
                        \* lengths after / before the zip loop).  The harness probes the real
                        \* function and selects the transcription that matches the code under test.
-          Big,         \* larger ExprList alphabet
+          Big,         \* larger ExprList alphabet, more literals in the slice "repr"
           Slice,       \* which part of the term universe: "main", or "repr" = the literals whose reprs
                        \* exercise every way _cmp_terminal_by_repr decides (see PART 3)
           PrintTable   \* print universe and table (once per harness run)
@@ -261,8 +261,9 @@ RunLoop(s) == IF s.pc = "done" THEN s ELSE RunLoop(Iterate(s))
 CmpRun(x, y) == RunLoop(Start(x, y))
 
 ----------------------------------------------------------------------------
-(* PART 3.  The term universe (depth <= 2, plus four depth-3 terms that    *)
-(* reach the equal_pairs branch)                                           *)
+(* PART 3.  The term universe, in two slices (constant Slice).  "main":    *)
+(* depth <= 2, plus four depth-3 terms that reach the equal_pairs branch.  *)
+(* "repr": the literals compared by _cmp_terminal_by_repr (further down).  *)
 
 f3  == Coef(3, << >>)       f12 == Coef(12, << >>)
 w60 == Coef(60, <<2>>)      t20 == Coef(20, <<2, 2>>)
